@@ -380,3 +380,350 @@ def unscale_before_copy(rep, F, E, tag, rid):
                 new.loc(c.sp))
 
     R.guard(body)
+
+
+# ---------------------------------------------------------------------------
+# C02: NaN objectives, is_infeasible set, kappa normalisation
+# ---------------------------------------------------------------------------
+
+INFEASIBLE_SET = {'PrimalInfeasible', 'DualInfeasible', 'AlmostPrimalInfeasible', 'AlmostDualInfeasible'}
+
+
+def nan_objectives(rep, F, tag, rid):
+    R = rep.rule(rid, 'infeasible verdicts report NaN objectives; is_infeasible accepts exactly the four '
+                      'infeasible statuses')
+
+    def body():
+        pp = F.one(name='post_process', adt='DefaultSolution')
+        leaves = Walker(pp).leaves()
+        key = 'is_infeasible(arg4.status)'
+        seen = {0: 0, 1: 0}
+        for val, ret, ev, tr in leaves:
+            if key not in val:
+                R.bad('objective-guard' + tag, 'a path through post_process stores the objectives without testing '
+                                               'info.status.is_infeasible()', pp.loc())
+                continue
+            st = {e[1]: e[2] for e in ev if e[0] == 'store'}
+            seen[val[key]] += 1
+            if val[key] == 1:
+                R.check(st.get('self.obj_val') == 'nan()' and st.get('self.obj_val_dual') == 'nan()',
+                        'nan-under-infeasible' + tag,
+                        'under an infeasible status obj_val/obj_val_dual are %s/%s, expected NaN' % (
+                            st.get('self.obj_val'), st.get('self.obj_val_dual')), pp.loc())
+            else:
+                R.check(st.get('self.obj_val') == 'arg4.cost_primal' and st.get('self.obj_val_dual') == 'arg4.cost_dual',
+                        'objectives-copied' + tag,
+                        'obj_val/obj_val_dual are assigned from %s/%s, expected info.cost_primal/info.cost_dual' % (
+                            st.get('self.obj_val'), st.get('self.obj_val_dual')), pp.loc())
+        R.check(seen[0] > 0 and seen[1] > 0, 'both-branches' + tag, 'post_process lost one of the objective branches')
+        # the is_infeasible predicate
+        isf = F.one(name='is_infeasible', adt='SolverStatus')
+        adt = F.adt('SolverStatus')
+        vnames = [v['n'] for v in adt['variants']]
+        acc = set()
+        for val, ret, ev, tr in Walker(isf).leaves():
+            ks = [k for k in val if k.startswith('discr(')]
+            if len(ks) != 1 or ret[0] != 'c':
+                raise AnchorError('is_infeasible is not a discriminant test')
+            d = val[ks[0]]
+            if ret[1]:
+                if d < len(vnames):
+                    acc.add(vnames[d])
+                else:
+                    acc.add('<otherwise>')
+        R.check(acc == INFEASIBLE_SET, 'is_infeasible-set' + tag,
+                'SolverStatus::is_infeasible accepts %s, expected %s' % (sorted(acc), sorted(INFEASIBLE_SET)), isf.loc())
+
+    R.guard(body)
+
+
+def kappa_normalisation(rep, F, tag, rid):
+    R = rep.rule(rid, 'unscale normalises by kappa for infeasible verdicts and by tau otherwise, the same factor '
+                      'on x, s, z, tau, kappa')
+
+    def body():
+        f = F.one(name='unscale', adt='DefaultVariables')
+        leaves = Walker(f).leaves()
+        seen = set()
+        for val, ret, ev, tr in leaves:
+            if 'arg3' not in val:
+                R.bad('flag-tested' + tag, 'unscale does not branch on its is_infeasible flag', f.loc())
+                continue
+            recips = [e[2] for e in ev if e[0] == 'call' and e[1] == 'recip']
+            want = 'recip(self.κ)' if val['arg3'] else 'recip(self.τ)'
+            other = 'recip(self.τ)' if val['arg3'] else 'recip(self.κ)'
+            seen.add(val['arg3'])
+            R.check(want in recips and other not in recips, 'factor|%d%s' % (val['arg3'], tag),
+                    'with is_infeasible=%d the normalisation uses %s, expected %s' % (val['arg3'], recips, want), f.loc())
+        R.check(seen == {0, 1}, 'both-branches' + tag, 'unscale lost a branch')
+        # the factor variable: defined only by those two reciprocals
+        sc = calls_named(f, 'scale')
+        R.check(len(sc) == 3, 'three-scales' + tag, 'unscale applies %d vector scalings, expected 3 (x, z, s)' % len(sc), f.loc())
+        facs = set()
+        tgts = set()
+        for c in sc:
+            a = [f.sym_operand(x) for x in c.args]
+            tgt = canon(a[0])
+            fac = canon(a[1])
+            tgts.add(tgt.split('(')[1].split(',')[0] if tgt.startswith('hadamard(') else tgt)
+            facs.add(fac)
+        R.check(tgts == {'self.x', 'self.z', 'self.s'}, 'scale-targets' + tag, 'scaled vectors are %s' % sorted(tgts), f.loc())
+        base = [x for x in facs if x.startswith('var:')]
+        R.check(len(base) == 1 and all(b == base[0] or b in ('mul(%s, recip(arg2.equilibration.c))' % base[0],) for b in facs),
+                'common-factor' + tag, 'x, s, z are not scaled by one common normalisation factor: %s' % sorted(facs), f.loc())
+        if base:
+            var = base[0][4:]
+            for l in f.local_by_name(var):
+                for d in f.defs.get(l, []):
+                    if d[0] == 'c':
+                        v = canon(('call', f.call_at[d[1]].callee.target_key, tuple(f.sym_operand(a) for a in f.call_at[d[1]].args), d[1]))
+                    else:
+                        v = canon(f.sym_rvalue(f.blocks[d[1]]['s'][d[2]]['rv']))
+                    R.check(v in ('recip(self.κ)', 'recip(self.τ)'), 'factor-def|%s%s' % (v, tag),
+                            'normalisation factor assigned from %s' % v, f.loc())
+        st = {}
+        for val, ret, ev, tr in leaves:
+            for e in ev:
+                if e[0] == 'store':
+                    st.setdefault(e[1], set()).add(e[2])
+        allcalls = set()
+        for val, ret, ev, tr in leaves:
+            for e in ev:
+                if e[0] == 'call':
+                    allcalls.add(e[2])
+        for fld in ('self.τ', 'self.κ'):
+            ok = bool(base) and (st.get(fld) == {'mul(%s, %s)' % (fld, base[0])} or
+                                 'mul_assign(%s, %s)' % (fld, base[0]) in allcalls)
+            R.check(ok, 'scalar|%s%s' % (fld, tag),
+                    '%s is not multiplied by the common normalisation factor (stores %s)' % (fld, st.get(fld)), f.loc())
+
+    R.guard(body)
+
+
+# ---------------------------------------------------------------------------
+# C03: report provenance, Almost*, rollback symmetry, iteration count
+# ---------------------------------------------------------------------------
+
+COPY_TABLE = {
+    'self.iterations': 'arg4.iterations',
+    'self.r_prim': 'arg4.res_primal',
+    'self.r_dual': 'arg4.res_dual',
+    'self.status': 'arg4.status',
+}
+
+
+def report_provenance(rep, F, E, tag, rid):
+    R = rep.rule(rid, 'reported figures are copies of the matching DefaultInfo fields')
+
+    def body():
+        pp = F.one(name='post_process', adt='DefaultSolution')
+        for val, ret, ev, tr in Walker(pp).leaves():
+            st = {}
+            for e in ev:
+                if e[0] == 'store':
+                    st[e[1]] = e[2]
+            for k, want in COPY_TABLE.items():
+                R.check(st.get(k) == want, 'copy|%s%s' % (k, tag), 'solution field %s is assigned from %s, expected %s' % (
+                    k[5:], st.get(k), want), pp.loc())
+        fin = F.one(name='finalize', adt='DefaultSolution')
+        st = {}
+        for val, ret, ev, tr in Walker(fin).leaves():
+            for e in ev:
+                if e[0] == 'store':
+                    st[e[1]] = e[2]
+        R.check(st.get('self.solve_time') == 'arg2.solve_time', 'copy|solve_time' + tag,
+                'solution.solve_time assigned from %s' % st.get('self.solve_time'), fin.loc())
+        # no other writer of these solution fields
+        for fld in ('obj_val', 'obj_val_dual', 'r_prim', 'r_dual', 'iterations', 'solve_time'):
+            for k, hits in E.direct_writers_of('DefaultSolution', fld).items():
+                g = F.by_key[k][0]
+                R.check(g.name in ('post_process', 'finalize') and g.impl_adt and 'DefaultSolution' in g.impl_adt,
+                        'writer|%s|%s%s' % (fld, short(k), tag), '%s writes DefaultSolution.%s' % (k, fld), g.loc(hits[0][1]))
+        # solve: info.finalize before solution.finalize
+        s = solve_fn(F)
+        a = [c for c in s.calls if c.callee.name == 'finalize' and (c.callee.trait or '').endswith('Info')]
+        b = [c for c in s.calls if c.callee.name == 'finalize' and (c.callee.trait or '').endswith('Solution')]
+        R.check(len(a) == 1 and len(b) == 1 and s.dominates(a[0].bb, b[0].bb), 'finalize-order' + tag,
+                'info.finalize must precede solution.finalize', s.loc())
+
+    R.guard(body)
+
+
+def almost_only_reduced(rep, F, G, tag, rid):
+    R = rep.rule(rid, 'Almost* statuses only from the reduced-tolerance check, which runs only after an error / '
+                      'limit status')
+
+    def body():
+        cca = info_fn(F, 'check_convergence_almost')
+        cs = set(G.callers_of(cca.key))
+        ipp = F.one(name='post_process', adt=INFO)
+        R.check(cs == {ipp.key}, 'callers' + tag, 'check_convergence_almost is called from %s, expected only Info::post_process' % sorted(
+            short(c) for c in cs), cca.loc())
+        for val, ret, ev, tr in Walker(ipp).leaves():
+            called = any(e[0] == 'call' and e[1] == 'check_convergence_almost' for e in ev)
+            err = [k for k in val if k.startswith('is_errored(')]
+            d = [k for k in val if k.startswith('discr(self.status')]
+            adt = F.adt('SolverStatus')
+            vn = [v['n'] for v in adt['variants']]
+            cond = False
+            for k in err:
+                if val[k] == 1:
+                    cond = True
+            for k in d:
+                if val[k] < len(vn) and vn[val[k]] in ('MaxIterations', 'MaxTime'):
+                    cond = True
+            R.check(called == cond, 'guard|%s%s' % (sorted(val.items()), tag),
+                    'check_convergence_almost %s under %s' % ('runs' if called else 'does not run', val), ipp.loc())
+        ie = F.one(name='is_errored', adt='SolverStatus')
+        acc = set()
+        adt = F.adt('SolverStatus')
+        vn = [v['n'] for v in adt['variants']]
+        for val, ret, ev, tr in Walker(ie).leaves():
+            ks = [k for k in val if k.startswith('discr(')]
+            if ks and ret[0] == 'c' and ret[1]:
+                acc.add(vn[val[ks[0]]] if val[ks[0]] < len(vn) else '<otherwise>')
+        R.check(acc == {'NumericalError', 'InsufficientProgress'}, 'is_errored-set' + tag,
+                'is_errored accepts %s' % sorted(acc), ie.loc())
+
+    R.guard(body)
+
+
+def rollback_symmetry(rep, F, tag, rid):
+    R = rep.rule(rid, 'save_prev_iterate / reset_to_prev_iterate are mirror images over the six reported scalars '
+                      'and the iterate; copy_from copies all five components; save precedes add_step')
+
+    def body():
+        sv = info_fn(F, 'save_prev_iterate')
+        rs = info_fn(F, 'reset_to_prev_iterate')
+
+        def stores(f):
+            st = {}
+            cl = []
+            for val, ret, ev, tr in Walker(f).leaves():
+                for e in ev:
+                    if e[0] == 'store':
+                        st[e[1]] = e[2]
+                    if e[0] == 'call':
+                        cl.append(e[2])
+            return st, cl
+        s1, c1 = stores(sv)
+        s2, c2 = stores(rs)
+        for fld in REPORTED:
+            R.check(s1.get('self.prev_' + fld) == 'self.' + fld, 'save|%s%s' % (fld, tag),
+                    'save_prev_iterate: prev_%s <- %s' % (fld, s1.get('self.prev_' + fld)), sv.loc())
+            R.check(s2.get('self.' + fld) == 'self.prev_' + fld, 'reset|%s%s' % (fld, tag),
+                    'reset_to_prev_iterate: %s <- %s' % (fld, s2.get('self.' + fld)), rs.loc())
+        R.check('copy_from(arg3, arg2)' in c1, 'save|vars' + tag, 'save_prev_iterate does not copy variables into prev_variables: %s' % c1, sv.loc())
+        R.check('copy_from(arg2, arg3)' in c2, 'reset|vars' + tag, 'reset_to_prev_iterate does not copy prev_variables into variables: %s' % c2, rs.loc())
+        cf = F.one(name='copy_from', adt='DefaultVariables')
+        st, cl = stores(cf)
+        for v in ('x', 's', 'z'):
+            R.check('copy_from(self.%s, arg2.%s)' % (v, v) in cl, 'copy_from|%s%s' % (v, tag),
+                    'DefaultVariables::copy_from does not copy %s' % v, cf.loc())
+        for v in ('τ', 'κ'):
+            R.check(st.get('self.' + v) == 'arg2.' + v, 'copy_from|%s%s' % (v, tag),
+                    'DefaultVariables::copy_from: %s <- %s' % (v, st.get('self.' + v)), cf.loc())
+        s = solve_fn(F)
+        sp = one_call(s, 'save_prev_iterate')
+        ad = one_call(s, 'add_step')
+        R.check(s.dominates(sp.bb, ad.bb), 'save-before-step' + tag, 'save_prev_iterate does not precede add_step on every path', s.loc(ad.sp))
+        a = [canon(s.sym_operand(x)) for x in sp.args]
+        R.check(a == ['self.info', 'self.variables', 'self.prev_vars'], 'save-args' + tag, 'save_prev_iterate(%s)' % a, s.loc(sp.sp))
+        sc = F.one(name='strategy_checkpoint_insufficient_progress', trait='IPSolverInternals')
+        rc = one_call(sc, 'reset_to_prev_iterate')
+        a = [canon(sc.sym_operand(x)) for x in rc.args]
+        R.check(a == ['self.info', 'self.variables', 'self.prev_vars'], 'reset-args' + tag, 'reset_to_prev_iterate(%s)' % a, sc.loc(rc.sp))
+
+    R.guard(body)
+
+
+def iteration_count(rep, F, E, tag, rid):
+    R = rep.rule(rid, 'DefaultInfo.iterations is written only by reset/save_scalars, from the loop counter')
+
+    def body():
+        dw = E.direct_writers_of(INFO, 'iterations')
+        for k, hits in dw.items():
+            g = F.by_key[k][0]
+            if g.impl_exp or g.from_expansion:
+                continue
+            R.check(g.name in ('reset', 'save_scalars'), 'writer|%s%s' % (short(k), tag),
+                    '%s writes DefaultInfo.iterations' % k, g.loc(hits[0][1]))
+        ss = info_fn(F, 'save_scalars')
+        st = {}
+        for val, ret, ev, tr in Walker(ss).leaves():
+            for e in ev:
+                if e[0] == 'store':
+                    st[e[1]] = e[2]
+        R.check(st.get('self.iterations') == 'arg5', 'save_scalars-src' + tag,
+                'save_scalars stores %s into iterations, expected its iter parameter' % st.get('self.iterations'), ss.loc())
+        s = solve_fn(F)
+        cs = calls_named(s, 'save_scalars')
+        ct = one_call(s, 'check_termination')
+        for c in cs:
+            R.check(canon(s.sym_operand(c.args[4])) == canon(s.sym_operand(ct.args[3])), 'counter|%d%s' % (c.line, tag),
+                    'save_scalars receives %s as the iteration count' % canon(s.sym_operand(c.args[4])), s.loc(c.sp))
+        R.check(len(cs) == 2, 'save_scalars-sites' + tag, '%d save_scalars call sites in solve, expected 2' % len(cs))
+        # after the last save_scalars on any path there is no increment before post_process:
+        h, lbody = main_loop(s)
+        pp = [c for c in s.calls if c.callee.name == 'post_process' and (c.callee.trait or '').endswith('Info')][0]
+        itl = s.sym_operand(ct.args[3])[1]
+        inc = [d[1] for d in s.defs.get(itl, []) if d[1] in lbody]
+        post = [c for c in cs if c.bb not in lbody]
+        inl = [c for c in cs if c.bb in lbody]
+        # Paths from the increment to post_process must pass a save_scalars.  Inside the loop the next
+        # cycle's save_scalars does it; on the break paths taken after the increment the step length
+        # is first set to zero and the post-loop `if alpha == 0 { save_scalars }` records the counter.
+        if len(post) != 1 or len(inl) != 1:
+            raise AnchorError('save_scalars sites: %d in loop, %d after' % (len(inl), len(post)))
+        al = s.sym_operand(post[0].args[2])
+        if al[0] != 'var':
+            raise AnchorError('step length passed to save_scalars is not a mutable local')
+        alpha = al[1]
+        # post-loop: save_scalars runs exactly when alpha == 0
+        guard = None
+        for bi, bl in enumerate(s.blocks):
+            t = bl['t']
+            if t['k'] == 'switch' and bi not in lbody:
+                k = canon(s.sym_operand(t['d']))
+                if k.startswith('eq(') and 'zero()' in k and 'var:' in k:
+                    guard = (bi, t)
+        if guard is None:
+            raise AnchorError('post-loop `alpha == 0` test not found')
+        gb, gt = guard
+        true_succ = gt['o']
+        for b in inc:
+            state = {b: 'OTHER'}
+            work = [b]
+            at_guard = []
+            while work:
+                x = work.pop()
+                cur = state[x]
+                for stt in s.blocks[x]['s']:
+                    if 'p' in stt and 'rv' in stt and not stt['p']['p'] and stt['p']['l'] == alpha:
+                        cur = 'ZERO' if canon(s.sym_rvalue(stt['rv'])) == 'zero()' else 'OTHER'
+                c = s.call_at.get(x)
+                if c is not None and not c.dest['p'] and c.dest['l'] == alpha:
+                    cur = 'ZERO' if c.callee.name == 'zero' else 'OTHER'
+                for nx in s.succ[x]:
+                    if nx == h or nx == inl[0].bb:
+                        continue
+                    if nx == gb:
+                        at_guard.append((x, cur))
+                        continue
+                    new = cur
+                    if nx in state and state[nx] != new:
+                        new = 'OTHER'
+                    if nx in state and state[nx] == new:
+                        continue
+                    state[nx] = new
+                    work.append(nx)
+            bad = [x for x, st_ in at_guard if st_ != 'ZERO']
+            R.check(bool(at_guard) and not bad, 'inc-then-break-zeroes-alpha' + tag,
+                    'the loop can be left after incrementing the counter without zeroing the step length, so the '
+                    'post-loop save_scalars is skipped and the reported count lags (blocks %s)' % bad, s.loc())
+        R.check(s.dominates(true_succ, post[0].bb) and not s.dominates(post[0].bb, pp.bb), 'post-save-guard' + tag,
+                'post-loop save_scalars is not exactly the alpha == 0 branch', s.loc(post[0].sp))
+        R.check(s.dominates(gb, pp.bb), 'post-guard-dominates' + tag, 'post_process can be reached without the alpha == 0 test', s.loc())
+        # each save_scalars is followed by print_status before the next save_scalars/post_process (C20 R4)
+
+    R.guard(body)
